@@ -54,6 +54,18 @@ func verifCheckCurrent(sess *Session, cur string, dbs map[string]*verifDBModel, 
 	}
 }
 
+// verifScriptKind16: like verifScriptKind with base-16 digits (kinds up to 14).
+func verifScriptKind16(script, n, i int) int {
+	for j := n - 1; j > i; j-- {
+		script /= 16
+	}
+	d := script % 16
+	if d == 0 {
+		return -1
+	}
+	return d - 1
+}
+
 // H17: sequences over CREATE DATABASE a|b, USE a|b|nosuch, SHOW DATABASES,
 // CREATE TABLE, INSERT, timer ticks of any live store, and restarts (clean
 // shutdown or crash, then InitStorage and a new session). Each database must
@@ -70,11 +82,26 @@ func verifH_C17_dbs() {
 	hist := ""
 	for i := 0; i < steps; i++ {
 		k := verifScriptKind(script, steps, i)
+		if xs := verifParam("xscript", 0); xs != 0 {
+			// base-16 script: digit d (1..15) = step kind d-1, 0 = free step
+			k = verifScriptKind16(xs, steps, i)
+		}
 		if i == verifParam("bulkat", -1) {
 			k = 9
 		}
 		if k < 0 {
-			k = verifChoice("step", kinds)
+			if mask := verifParam("kmask", 0); mask != 0 {
+				// free step among the kinds whose bit is set in kmask
+				var avail []int
+				for b := 0; b < 16; b++ {
+					if mask&(1<<b) != 0 {
+						avail = append(avail, b)
+					}
+				}
+				k = avail[verifChoice("step", len(avail))]
+			} else {
+				k = verifChoice("step", kinds)
+			}
 		}
 		if k == 9 && verifParam("nobulk", 0) == 1 {
 			verifAssume(false)
@@ -138,6 +165,36 @@ func verifH_C17_dbs() {
 				for v := int64(1); v <= 9; v++ {
 					dbs[cur].rows = append(dbs[cur].rows, v)
 				}
+			}
+		case 10: // UPDATE of every row to a symbolic digit (one log record per row)
+			d := verifU8("upd-digit")
+			verifAssume(verifAnd(d >= '0', d <= '9'))
+			err := sess.ExecQuery("UPDATE t SET a = " + string([]byte{d}))
+			switch {
+			case cur == "" || !dbs[cur].hasT:
+				verifAssert(err != nil, "update-needs-database-and-table")
+			default:
+				verifAssert(err == nil, "update-ok")
+				for j := range dbs[cur].rows {
+					dbs[cur].rows[j] = int64(d - '0')
+				}
+			}
+		case 11: // DELETE of the rows holding a symbolic digit
+			d := verifU8("del-digit")
+			verifAssume(verifAnd(d >= '0', d <= '9'))
+			err := sess.ExecQuery("DELETE FROM t WHERE a = " + string([]byte{d}))
+			switch {
+			case cur == "" || !dbs[cur].hasT:
+				verifAssert(err != nil, "delete-needs-database-and-table")
+			default:
+				verifAssert(err == nil, "delete-ok")
+				var keep []int64
+				for _, v := range dbs[cur].rows {
+					if v != int64(d-'0') {
+						keep = append(keep, v)
+					}
+				}
+				dbs[cur].rows = keep
 			}
 		case 7: // a pause: the flush timer of some live store fires
 			n := verifNumTickers()
